@@ -60,6 +60,9 @@ pub fn check(thorough: bool, _seed: u64) -> Check {
                 return Err(Fail::new("linear() does not return one segment per consecutive knot pair", detail(json!({"segments": pw.segments.len()}))));
             }
             let ends: Vec<f64> = pw.segments.iter().map(|s| s.end).collect();
+            if let Some(c) = pw.segments.iter().flat_map(|s| s.poly.0.iter()).find(|c| !c.is_finite()) {
+                return Err(Fail::new("linear() returned a non-finite coefficient for finite knots", detail(json!({"coefficient": fj(*c)}))));
+            }
             for i in 0..n - 1 {
                 if ends[i].to_bits() != fx[i + 1].to_bits() {
                     return Err(Fail::new("segment ends are not the running maximum of the knot abscissae", detail(json!({"ends": fjs(&ends), "expected": fjs(&fx[1..])}))));
